@@ -45,6 +45,13 @@ def parsePartsFuel : Nat → String → Option (List Part)
 
 def parseParts (s : String) : Option (List Part) := parsePartsFuel 16 s
 
+/-- an RPS profile: brackets removed, `unlim:MS` allowed -/
+def parseRps (s : String) : Option (List RSeg) :=
+  ((String.ofList (s.toList.filter fun ch => ch != '[' && ch != ']')).splitOn "+").mapM fun seg =>
+    match seg.splitOn ":" with
+    | ["unlim", ms] => do pure (.unlim (← ms.toInt?))
+    | _ => (parseLeaf seg).map RSeg.leaf
+
 def parsePairs (s : String) : Option (List (String × Int)) :=
   (splitList s).mapM fun p => match p.splitOn ":" with
     | [a, b] => do pure (a, ← b.toInt?)
@@ -60,7 +67,7 @@ def parseExits (s : String) : Option (List (Nat × Int × String)) :=
     | [a, b, c] => do pure (← a.toNat?, ← b.toInt?, c)
     | _ => none
 
-def parseObs (kv : List (String × String)) (ammo : Nat := 0) : Option Obs := do
+def parseObs (kv : List (String × String)) (ammo : Nat := 0) (rps : List RSeg := []) : Option Obs := do
   let binds ← (← parsePairs (getS kv "binds")).mapM fun (a, b) => do pure ((← a.toNat?), b)
   let shots ← (← parsePairs (getS kv "shots")).mapM fun (a, b) => do pure ((← a.toNat?), b.toNat)
   pure { k := ← getN? kv "k", err := getS kv "err", mstart := ← getN? kv "mstart", fails := ← getN? kv "fails",
@@ -71,8 +78,11 @@ def parseObs (kv : List (String × String)) (ammo : Nat := 0) : Option Obs := do
          binds, exits := ← parseExits (getS kv "exits"), cuts := ← parsePairs (getS kv "cuts"),
          jitter := (getI? kv "jitter").getD 0,
          lastshot := (getI? kv "lastshot").getD (-1), gunctx := (getI? kv "gunctx").getD (-1),
-         shots, rpstot := (getI? kv "rpstot").getD (-1), ammo, rpsmin := (getI? kv "rpsmin").getD 0,
-         rpsspans := ← parseSpans (getS kv "rpsspans"), mfin := getN? kv "mfin" }
+         shots, rpstot := (getI? kv "rpstot").getD (-1), ammo,
+         -- computed from the profile text (the harness prints its own figure as `rpsmin=`; it is not used)
+         rpsmin := rpsMinNs rps, rpsfloor := rpsFloor rps,
+         rpsspans := ← parseSpans (getS kv "rpsspans"), mfin := getN? kv "mfin",
+         rpsgiven := ← parseInts (getS kv "rpsgiven") }
 
 def reasonOf : String → Option ExitReason
   | "sched" => some .scheduleEnd
@@ -199,7 +209,8 @@ def engineErr (ins obss : List String) : Option String :=
 
 /-- one pool: (model observation, verdict) -/
 def handlePool (input impl : String) (engErr : Option String := none) : String × String :=
-  match parseParts (getS (parseKV input) "startup"), parseObs (parseKV impl) ((getN? (parseKV input) "ammo").getD 0) with
+  match parseParts (getS (parseKV input) "startup"),
+      (parseRps (getS (parseKV input) "rps")).bind (fun rps => parseObs (parseKV impl) ((getN? (parseKV input) "ammo").getD 0) rps) with
   | some parts, some o =>
     let perinst := getS (parseKV input) "perinst" == "1"
     let s := replay perinst o
